@@ -25,6 +25,9 @@ type c11Index struct {
 	v    float64 // its value
 }
 
+// float64 variables (not constants: Go evaluates constant expressions exactly)
+var f01, f02, f03, f1e10, f1e12 = 0.1, 0.2, 0.3, 0.0000000001, 0.000000000001
+
 func c11Indices(n int) []c11Index {
 	var out []c11Index
 	for i := -n - 2; i <= n+2; i++ {
@@ -38,6 +41,9 @@ func c11Indices(n int) []c11Index {
 		c11Index{"-9223372036854775808", -9223372036854775808}, c11Index{"(pow 10 300)", 1e300}, c11Index{"(-(pow 10 300))", -1e300},
 		c11Index{"(0/zero)", math.NaN()}, c11Index{"(1/zero)", math.Inf(1)}, c11Index{"(-1/zero)", math.Inf(-1)}, c11Index{"(zero*-1)", math.Copysign(0, -1)},
 		c11Index{"1.0", 1}, c11Index{"(n-1)", float64(n - 1)}, c11Index{"(-n)", float64(-n)},
+		// computed values that are close to, but not, integers
+		c11Index{"(0.1*3*10-3)", f01*3*10 - 3}, c11Index{"(1-0.0000000001)", 1 - f1e10}, c11Index{"(-1+0.000000000001)", -1 + f1e12},
+		c11Index{"0.00000000000001", 1e-14}, c11Index{"(n-0.000000000001)", float64(n) - f1e12}, c11Index{"(0.1+0.2-0.3)", f01 + f02 - f03},
 	)
 	return out
 }
